@@ -51,6 +51,14 @@ func judge(c Case, w *vkit.W) {
 	}()
 	s := size.Size(c.S)
 	const other = size.Size(0xDEADBEEF)
+	if w.Flip() && (c.S%8 == 3 || c.Containers) {
+		// earlier calls that fail must not influence later ones: a few rejected inputs before the round trips
+		var junk size.Size
+		for _, bad := range rejected {
+			_ = junk.UnmarshalJSON([]byte(bad))
+			_ = junk.UnmarshalText([]byte(bad))
+		}
+	}
 
 	text, err := s.MarshalText()
 	if err != nil {
@@ -122,11 +130,16 @@ func judge(c Case, w *vkit.W) {
 	}
 }
 
+var rejected = []string{"1 2 3", `{"value":1,"unit":"kB"} {"value":2,"unit":"kB"} 3`, `"1 kB" "2 kB" x`, `{"value":1`, "[1,2", "x", `{"value":1,"unit":"kB"}}}`, "-1", "1 xB", `"`, ""}
+
 func nontrivial(s uint64) bool { return s != 10 && s != 20*1024 }
 
 func TestCheck(t *testing.T) {
 	r := vkit.Start("C04")
 	defer r.Finish(t)
+	if r.ReplayCold() {
+		return
+	}
 	if r.Replay != "" {
 		var c Case
 		if err := r.LoadReplay(&c); err != nil {
@@ -196,6 +209,15 @@ func TestCheck(t *testing.T) {
 	}
 	r.Exhaustive(fmt.Sprintf("%d stratified sizes x all 8 switch settings through text, JSON and rendering paths", len(strata)))
 	r.Sampled()
+	r.Phase(fmt.Sprintf("cold start: %d scenarios (the first call of a fresh process is an unmarshal of text produced elsewhere)", len(coldScenarios)), func() {
+		r.Serial(func(w *vkit.W) {
+			for _, sc := range coldScenarios {
+				r.RunCold(w, sc, false)
+				w.EvalRandom(vkit.Hash64("cold", sc), true)
+			}
+		})
+	})
+
 	r.Phase("rapid", func() {
 		r.Rapid(t, "rapid-roundtrip", 0, r.Pick(10000, 200000), func(rt *rapid.T, w *vkit.W) vkit.RapidCase {
 			v := rapid.Uint64().Draw(rt, "v") >> uint(rapid.IntRange(0, 63).Draw(rt, "shr")) << uint(rapid.IntRange(0, 63).Draw(rt, "shl"))
